@@ -181,6 +181,11 @@ def run(ctx):
             int(x) for x in ctx.rng.integers(1, N + 1, size=ctx.budget(4, 10))))
         check_buffer_api(ctx, E, T, Bs)
         ctx.gc(2)
-    for (E, T, nb, ep) in ctx.budget([(2, 7, 3, 3), (3, 5, 2, 3)],
-                                     [(2, 7, 3, 3), (3, 5, 2, 3), (2, 4, 4, 2), (1, 7, 3, 4), (4, 5, 3, 5), (5, 3, 7, 2), (2, 11, 4, 3)]):
+    # (E, T, num_batches, epochs).  The last quick entries have floor(N / B) > num_batches with
+    # B = N // num_batches (N=16, nb=6: B=2, 8 minibatches; N=15, nb=6: B=2, 7 minibatches): the epoch must
+    # run floor(N/B) minibatches, not `num_batches` of them.
+    for (E, T, nb, ep) in ctx.budget([(2, 7, 3, 3), (3, 5, 2, 3), (2, 8, 6, 2), (3, 5, 6, 1)],
+                                     [(2, 7, 3, 3), (3, 5, 2, 3), (2, 8, 6, 2), (3, 5, 6, 1), (2, 4, 4, 2), (1, 7, 3, 4),
+                                      (4, 5, 3, 5), (5, 3, 7, 2), (2, 11, 4, 3), (4, 16, 24, 2), (5, 20, 30, 1)]):
+        ctx.count("train-visits:floor(N/B)>num_batches" if (E * T) // ((E * T) // nb) > nb else "train-visits:floor(N/B)==num_batches")
         check_train_visits(ctx, E, T, nb, ep, trials=ctx.budget(3, 6))
